@@ -23,6 +23,7 @@ import (
 	"cmp"
 	"errors"
 	"fmt"
+	"io"
 	"iter"
 	"math"
 	"slices"
@@ -31,6 +32,7 @@ import (
 	"strings"
 
 	"seehuhn.de/go/pdf"
+	"seehuhn.de/go/pdf/internal/debug/memfile"
 	"seehuhn.de/go/pdf/nametree"
 	"seehuhn.de/go/pdf/numtree"
 	"seehuhn.de/go/pdf/verifharness/common"
@@ -378,16 +380,66 @@ func (n *tnode[K]) put(kd *kind[K], w *pdf.Writer) pdf.Reference {
 
 // ------------------------------------------------------------ file plumbing
 
-func newWriter() (*pdf.Writer, *bytes.Buffer) {
-	buf := &bytes.Buffer{}
-	w, err := pdf.NewWriter(buf, pdf.V2_0, nil)
+// wcfg is a configuration in which a caller can write a tree.
+type wcfg struct {
+	ver        pdf.Version
+	human      bool // WriterOptions.HumanReadable (no object streams, no xref streams)
+	seekable   bool // output implements io.Seeker
+	openStream bool // the tree is written while a stream is open on the same Writer: Put defers the objects
+	second     bool // a second tree is written from inside the iterator of the first (after it, for WriteMap)
+}
+
+func (c wcfg) String() string {
+	return fmt.Sprintf("version=%s human=%v seekable=%v stream-open=%v second-tree=%v", c.ver, c.human, c.seekable, c.openStream, c.second)
+}
+
+var cfgs = []wcfg{
+	{ver: pdf.V2_0},
+	{ver: pdf.V1_7, openStream: true},
+	{ver: pdf.V1_4, human: true},
+	{ver: pdf.V2_0, seekable: true, second: true},
+	{ver: pdf.V1_7, human: true, openStream: true, second: true},
+	{ver: pdf.V1_4, seekable: true, openStream: true},
+	{ver: pdf.V1_7, seekable: true},
+	{ver: pdf.V2_0, human: true, seekable: true, openStream: true, second: true},
+}
+
+type sink struct {
+	buf *bytes.Buffer
+	mem *memfile.MemFile
+}
+
+func (s *sink) bytes() []byte {
+	if s.mem != nil {
+		return s.mem.Data
+	}
+	return s.buf.Bytes()
+}
+
+func newWriterCfg(c wcfg) (*pdf.Writer, *sink) {
+	s := &sink{}
+	var out io.Writer
+	if c.seekable {
+		s.mem = memfile.New()
+		out = s.mem
+	} else {
+		s.buf = &bytes.Buffer{}
+		out = s.buf
+	}
+	var opt *pdf.WriterOptions
+	if c.human {
+		opt = &pdf.WriterOptions{HumanReadable: true}
+	}
+	w, err := pdf.NewWriter(out, c.ver, opt)
 	if err != nil {
 		panic(err)
 	}
-	return w, buf
+	return w, s
 }
 
-func closeAndReopen(w *pdf.Writer, buf *bytes.Buffer) *pdf.Reader {
+func newWriter() (*pdf.Writer, *sink) { return newWriterCfg(cfgs[0]) }
+
+func closeAndReopen(w *pdf.Writer, s *sink) *pdf.Reader {
 	pages := w.Alloc()
 	w.GetMeta().Catalog.Pages = pages
 	if err := w.Put(pages, pdf.Dict{"Type": pdf.Name("Pages"), "Kids": pdf.Array{}, "Count": pdf.Integer(0)}); err != nil {
@@ -396,7 +448,8 @@ func closeAndReopen(w *pdf.Writer, buf *bytes.Buffer) *pdf.Reader {
 	if err := w.Close(); err != nil {
 		panic(err)
 	}
-	r, err := pdf.NewReader(bytes.NewReader(buf.Bytes()), int64(buf.Len()), nil)
+	data := s.bytes()
+	r, err := pdf.NewReader(bytes.NewReader(data), int64(len(data)), nil)
 	if err != nil {
 		panic(err)
 	}
@@ -411,9 +464,15 @@ func hashStr(h uint64, s string) uint64 {
 }
 
 type runner[K cmp.Ordered] struct {
-	e  *common.Env
-	kd *kind[K]
-	id *int
+	e    *common.Env
+	kd   *kind[K]
+	id   *int
+	ncfg int
+}
+
+func (t *runner[K]) nextCfg() wcfg {
+	t.ncfg++
+	return cfgs[t.ncfg%len(cfgs)]
 }
 
 func (t *runner[K]) nextID() string {
@@ -505,10 +564,10 @@ func short(s string) string {
 	return s
 }
 
-// testWrite: the entries (keys[i], i) given in this order to the real writer.
-// `sorted` says whether keys are strictly increasing (then the tree must be
-// faithful), otherwise the writer must refuse.
-func (t *runner[K]) testWrite(keys []K, probes []K, useMap bool, class string) {
+// testWrite: the entries (keys[i], i) given in this order to the real writer,
+// in the given writer configuration.  If the keys are strictly increasing the
+// tree must be faithful, otherwise the writer must refuse.
+func (t *runner[K]) testWrite(keys []K, probes []K, useMap bool, class string, cfg wcfg) {
 	e, kd := t.e, t.kd
 	isSorted := true
 	for i := 1; i < len(keys); i++ {
@@ -516,33 +575,69 @@ func (t *runner[K]) testWrite(keys []K, probes []K, useMap bool, class string) {
 			isSorted = false
 		}
 	}
-	cs := map[string]any{"kind": kd.tag, "n": len(keys), "keys": short(t.keysWire(keys)), "api": map[bool]string{false: "Write", true: "WriteMap"}[useMap]}
-	w, buf := newWriter()
+	cs := map[string]any{"kind": kd.tag, "n": len(keys), "keys": short(t.keysWire(keys)),
+		"api": map[bool]string{false: "Write", true: "WriteMap"}[useMap], "config": cfg.String()}
+	e.Dist["config:"+cfg.String()]++
+	w, snk := newWriterCfg(cfg)
 	type wres struct {
-		ref pdf.Reference
-		err error
+		ref, ref2 pdf.Reference
+		err, err2 error
+		did2      bool
+	}
+	seq := func(yield func(K, pdf.Object) bool) {
+		for i, k := range keys {
+			if !yield(k, pdf.Integer(i)) {
+				return
+			}
+		}
 	}
 	res, perr := safe(func() wres {
+		var res wres
+		var stm io.WriteCloser
+		if cfg.openStream {
+			var err error
+			stm, err = w.OpenStream(w.Alloc(), nil)
+			if err != nil {
+				panic(err)
+			}
+			if _, err := stm.Write([]byte("q Q\n")); err != nil {
+				panic(err)
+			}
+		}
 		if useMap {
 			m := map[K]pdf.Object{}
 			for i, k := range keys {
 				m[k] = pdf.Integer(i)
 			}
-			ref, err := kd.writeMap(w, m)
-			return wres{ref, err}
-		}
-		ref, err := kd.write(w, func(yield func(K, pdf.Object) bool) {
-			for i, k := range keys {
-				if !yield(k, pdf.Integer(i)) {
-					return
-				}
+			res.ref, res.err = kd.writeMap(w, m)
+			if cfg.second {
+				res.ref2, res.err2 = kd.writeMap(w, m)
+				res.did2 = true
 			}
-		})
-		return wres{ref, err}
+		} else {
+			res.ref, res.err = kd.write(w, func(yield func(K, pdf.Object) bool) {
+				for i, k := range keys {
+					if cfg.second && i == len(keys)/2 {
+						// a second tree, written in the middle of the first
+						res.ref2, res.err2 = kd.write(w, seq)
+						res.did2 = true
+					}
+					if !yield(k, pdf.Integer(i)) {
+						return
+					}
+				}
+			})
+		}
+		if stm != nil {
+			if err := stm.Close(); err != nil {
+				panic(err)
+			}
+		}
+		return res
 	})
 	id := t.nextID()
 	e.Line("cases.txt", "%s W %s %s %s", id, kd.tag, t.keysWire(keys), t.keysWire(probes))
-	e.Count(len(keys) > 1, kd.tag+t.keysWire(keys), class)
+	e.Count(len(keys) > 1, kd.tag+t.keysWire(keys)+cfg.String(), class)
 	if perr != "" {
 		e.Fail("write-panic", "the tree writer panics: "+perr, cs)
 		e.Line("impl.obs", "%s panic", id)
@@ -576,8 +671,30 @@ func (t *runner[K]) testWrite(keys []K, probes []K, useMap bool, class string) {
 		e.Line("impl.obs", "%s none", id)
 		return
 	}
-	r := closeAndReopen(w, buf)
-	root := pdf.Object(res.ref)
+	r := closeAndReopen(w, snk)
+	t.verify(id, r, res.ref, keys, probes, cs, class)
+	if res.did2 {
+		// the second tree holds the same entries and must be as good as the first
+		id2 := t.nextID()
+		e.Line("cases.txt", "%s W %s %s %s", id2, kd.tag, t.keysWire(keys), t.keysWire(probes))
+		e.Count(len(keys) > 1, kd.tag+t.keysWire(keys)+cfg.String()+"/second", class+"/second-tree")
+		cs2 := map[string]any{"tree": "second"}
+		for k, v := range cs {
+			cs2[k] = v
+		}
+		if res.err2 != nil || res.ref2 == 0 {
+			e.Fail("sorted-rejected", "the second tree is not written", cs2)
+			e.Line("impl.obs", "%s err", id2)
+			return
+		}
+		t.verify(id2, r, res.ref2, keys, probes, cs2, class)
+	}
+}
+
+// verify: the tree at ref in the reopened file against the entries (keys[i], i).
+func (t *runner[K]) verify(id string, r *pdf.Reader, ref pdf.Reference, keys []K, probes []K, cs map[string]any, class string) {
+	e, kd := t.e, t.kd
+	root := pdf.Object(ref)
 
 	raw := readRaw(kd, r, root, map[pdf.Reference]bool{}, 0)
 	verdict := structure(raw)
@@ -593,7 +710,7 @@ func (t *runner[K]) testWrite(keys []K, probes []K, useMap bool, class string) {
 		valid = 1
 	}
 	e.Line("impl.obs", "%s ok size=%d valid=%d enum=%d look=%s", id, size, valid, enum, look)
-	e.Sample(6, fmt.Sprintf("%s tree of %d keys (%s): shape %s, %d probes", kd.tag, len(keys), class, raw.shape(), len(probes)))
+	e.Sample(6, fmt.Sprintf("%s tree of %d keys (%s; %v): shape %s, %d probes", kd.tag, len(keys), class, cs["config"], raw.shape(), len(probes)))
 
 	// the raw dictionaries, for the model's validator and readers
 	var sb strings.Builder
@@ -1025,17 +1142,24 @@ func runKind[K cmp.Ordered](e *common.Env, kd *kind[K], id *int,
 	for _, n := range bsizes {
 		for style := 0; style < 3; style++ {
 			ks := set(t, n, style)
-			t.testWrite(ks, probes(t, ks, 200, 60), false, fmt.Sprintf("boundary-size-style%d", style))
+			t.testWrite(ks, probes(t, ks, 200, 60), false, fmt.Sprintf("boundary-size-style%d", style), t.nextCfg())
+		}
+	}
+	// every writer configuration at the sizes where the number of leaves and levels changes
+	for _, n := range []int{1, 63, 64, 65, 128, 129, 200, 4097} {
+		for ci, cfg := range cfgs {
+			ks := set(t, n, ci%3)
+			t.testWrite(ks, probes(t, ks, 70, 30), kd.writeMap != nil && ci%2 == 1 && n < 1000, "every-config", cfg)
 		}
 	}
 	for i, n := range big {
 		ks := set(t, n, i%3)
-		t.testWrite(ks, probes(t, ks, e.Pick(150, 1500), e.Pick(80, 500)), false, "size>=63*64")
+		t.testWrite(ks, probes(t, ks, e.Pick(150, 1500), e.Pick(80, 500)), false, "size>=63*64", t.nextCfg())
 	}
 	// every size 0..200 once (thorough: 0..600)
 	for n := 0; n <= e.Pick(200, 600); n++ {
 		ks := set(t, n, e.Rand.IntN(3))
-		t.testWrite(ks, probes(t, ks, 40, 25), kd.writeMap != nil && n%2 == 1, "all-sizes")
+		t.testWrite(ks, probes(t, ks, 40, 25), kd.writeMap != nil && n%2 == 1, "all-sizes", t.nextCfg())
 	}
 	// random sizes, random styles; WriteMap where available
 	for i := 0; i < e.Pick(150, 3000); i++ {
@@ -1044,13 +1168,13 @@ func runKind[K cmp.Ordered](e *common.Env, kd *kind[K], id *int,
 			n = 3900 + e.Rand.IntN(400)
 		}
 		ks := set(t, n, e.Rand.IntN(3))
-		t.testWrite(ks, probes(t, ks, 30, 30), kd.writeMap != nil && e.Rand.IntN(3) == 0, "random-size")
+		t.testWrite(ks, probes(t, ks, 30, 30), kd.writeMap != nil && e.Rand.IntN(3) == 0, "random-size", t.nextCfg())
 	}
 	// keys that are not strictly increasing must be refused
 	for i := 0; i < e.Pick(120, 2000); i++ {
 		n := 2 + e.Rand.IntN(200)
 		ks := perturb(e, set(t, n, e.Rand.IntN(3)))
-		t.testWrite(ks, nil, false, "unsorted")
+		t.testWrite(ks, nil, false, "unsorted", t.nextCfg())
 	}
 	// hand-built trees: valid ones of other shapes, and mutated ones
 	for i := 0; i < e.Pick(400, 8000); i++ {
@@ -1094,6 +1218,6 @@ func main() {
 	e.Finish("key sets: every size 0..200 (thorough 0..600), sizes at the boundaries of 64, 63*64 and 64*64 up to 6000 (thorough 20000), random sizes; "+
 		"names over arbitrary bytes (empty name, prefixes and 00/FF extensions of each other, all strings over {00,FF}, key%04d), integers incl. int64 extremes, dense and sparse; "+
 		"probes: present keys (all for small sets), below the minimum, above the maximum, immediate successors, prefixes, random; "+
-		"written with the real Write/WriteMap, file reopened; unsorted/duplicate key sequences; hand-built valid and mutated trees for the readers; "+
+		"written with the real Write/WriteMap in eight writer configurations (PDF 1.4/1.7/2.0, HumanReadable, seekable or not, while a stream is open on the same Writer so that Put defers the node objects, a second tree written from inside the iterator of the first), file reopened; unsorted/duplicate key sequences; hand-built valid and mutated trees for the readers; "+
 		"non-trivial = more than one key (W cases) or any hand-built tree, distinct by key set / tree", nil)
 }
